@@ -3,6 +3,7 @@ NEXT GNext
 INVARIANT EmitCase
 CHECK_DEADLOCK FALSE
 CONSTANTS
+  NoiseKinds = {"forged"}
   MaxSteps = 4
   MaxForged = 1
   DevLostForgets = TRUE
